@@ -55,8 +55,8 @@ specs["C20"] = {"property": "C20",
     "outside_claim": ["message contents beyond equality", "time.Time monotonic-clock readings (harness clock has none)"],
     "stubs_doc": ["log.Print -> harness recorder (natively: log.SetOutput to a buffer)", "nowFunc -> harness clock", "fmt.Sprintf -> identity on \"%s\""],
     "jobs": [
-      {"name": "step", "pkg": "loglimiter", "harness": "loglimiter", "entry": "ZZ_C20_step", "grid": {}, "stubs": {"log.Print": "zzLogPrint"}},
-      {"name": "bmc", "pkg": "loglimiter", "harness": "loglimiter", "entry": "ZZ_C20_bmc", "grid": {"K": [5]}, "grid_thorough": {"K": [8]}, "stubs": {"log.Print": "zzLogPrint"}}
+      {"name": "step", "pkg": "loglimiter", "harness": "loglimiter", "entry": "ZZ_C20_step", "grid": {}, "stubs": {"log.Print": "zzLogPrint"}, "fixed_now": 1600000000000000000},
+      {"name": "bmc", "pkg": "loglimiter", "harness": "loglimiter", "entry": "ZZ_C20_bmc", "grid": {"K": [5]}, "grid_thorough": {"K": [8]}, "stubs": {"log.Print": "zzLogPrint"}, "fixed_now": 1600000000000000000}
     ]}
 
 def thr_jobs():
@@ -93,14 +93,19 @@ THR_EXPL = ("Bounded symbolic verification of throttle/throttled_recorder.go tog
             "Psi = min(cap, a+(T-l)*quantum) + [a=cap and T>l], that the invariant is preserved, and the C06 behaviour (forwarding iff Available >= minimum clip, clean cut, pairing, one event per suppressed start or cut, remembered background/threshold on restart). "
             "Telescoping the potential inequality over any interval gives frames <= cap + 1 + ticks*quantum <= bucket + refill earned + 2 (paper step). "
             "(2) BMC: K well-formed client requests from the real constructor with arbitrary clock advances; the interval bound is asserted directly for every sub-interval (no potential function). "
+            "(3) Composition: the real MotionProcessor feeding the real ThrottledRecorder over the real bucket for K frames with arbitrary motion bits and clock advances of whole fill intervals; the interval bound is asserted on the frames that reach the storage sink (pre-trigger frames included). "
             "Constructor facts (capacity = bucket-size*fps, min clip = minSeconds*fps, quantum 1, rate within 1%) are evaluated on the concrete constructor result per configuration.")
 THR_ASSUME = COMMON_ASSUME + ["well-formed client (Start only when the client has no recording, Write/Stop only inside one): that is what MotionProcessor issues (C12)",
     "clock instants non-decreasing, ticks < 2^20 in the step lemma (2^44 ns advances in BMC)", "configurations are concrete per job (they size the bucket and fix fillInterval); quantum = 1 asserted for each",
     "the telescoping from the per-step potential inequality to the interval statement is a paper argument (DESIGN.md C05)"]
 THR_OUT = ["configurations outside the job grid", "ThrottledEventRecorder's D-Bus call (I/O)", "the main.go wiring of minSeconds = MinSecs+PreviewSecs (claimed in the wiring job once built)"]
 THR_STUBS = ["ratelimit.Clock -> harness clock handing out pre-drawn non-decreasing instants", "wrapped recorder.Recorder and ThrottledEventListener -> monitored stubs (injection interfaces)", "log.Print* -> no-op"]
+COMP_JOB = {"name": "comp", "pkg": "motion", "harness": "motion", "entry": "ZZ_C05_comp",
+            "grid": {"fps": [1], "minS": [1], "maxS": [3], "prevS": [1], "T": [1], "K": [8], "bucketS": [2], "refillNs": [2**33], "fi": [2**32]},
+            "grid_thorough": {"fps": [1], "minS": [1], "maxS": [3], "prevS": [1], "T": [1, 2], "K": [11], "bucketS": [2], "refillNs": [2**33], "fi": [2**32]},
+            "stubs": DETECT_STUB, "noops": LOG_NOOP, "native_rewrite": DETECT_REWRITE, "timeout": 300}
 for pid in ["C05", "C06"]:
-    specs[pid] = {"property": pid, "explanation": THR_EXPL, "assumptions": THR_ASSUME, "outside_claim": THR_OUT, "stubs_doc": THR_STUBS, "jobs": thr_jobs()}
+    specs[pid] = {"property": pid, "explanation": THR_EXPL, "assumptions": THR_ASSUME, "outside_claim": THR_OUT, "stubs_doc": THR_STUBS, "jobs": thr_jobs() + [COMP_JOB]}
 
 def aux_jobs(faults_only=None):
     jobs = []
